@@ -249,4 +249,5 @@ def run(ctx):
     c16.colouring(ctx)
     c16.aliasing(ctx)
     spaces.dof_by_entity(ctx)
+    spaces.builder_roles(ctx)
     dispatch(ctx)
